@@ -153,6 +153,16 @@ func steeredScalars(r *rand.Rand, nRand int) []*big.Int {
 	for i := 0; i < nRand; i++ {
 		put(randBig(r, bigN))
 	}
+	// every pattern of zero / non-zero 64-bit limbs
+	for pat := 1; pat < 16; pat++ {
+		var l [4]uint64
+		for k := 0; k < 4; k++ {
+			if pat&(1<<uint(k)) != 0 {
+				l[k] = r.Uint64() | 1
+			}
+		}
+		put(limbsToBig(l))
+	}
 	// nibble patterns
 	for _, pat := range []string{"00", "ff", "0f", "f0", "10", "01"} {
 		b := ""
